@@ -396,11 +396,38 @@ impl Property for C07 {
             3 => one(sel().prop_map(|sel| Ev::DropStream { sel })),
         ]
         .boxed();
-        scenario_v(rm_small(), ev, 1..tier.pick(40, 120))
+        let quiescent = scenario_v(rm_small(), ev, 1..tier.pick(40, 120));
+        // fine-grained schedules: subscribes from several clones whose futures are polled
+        // individually (the subscription identifier is taken at the first poll, the outcome seen
+        // at a later one), some refused under a small Maximum Packet Size, interleaved with
+        // messages for the subscriptions already on the wire
+        let fine_ev = prop_oneof![
+            5 => one(start(vec![(6, OpKind::Sub(0)), (1, OpKind::Unsub(0)), (1, OpKind::Pub1)])),
+            1 => Just(vec![Ev::CloneHandle]),
+            4 => Just(vec![Ev::PollCtx]),
+            6 => one(sel().prop_map(|sel| Ev::PollOp { sel })),
+            3 => one(ack(deco_ok())),
+            8 => one(in_publish((0u8..3).boxed(), Just(0u16).boxed(), target_any())),
+            3 => one(sel().prop_map(|sel| Ev::MakeStream { sel })),
+            3 => one(sel().prop_map(|sel| Ev::PollStream { sel })),
+            1 => one(sel().prop_map(|sel| Ev::DropStream { sel })),
+            2 => Just(vec![Ev::Settle]),
+            1 => sub_ready(),
+        ]
+        .boxed();
+        let fine = (scenario_v(rm_small(), fine_ev, 1..tier.pick(50, 120)), prop_oneof![1 => Just(None), 1 => (18u32..42).prop_map(Some)])
+            .prop_map(|(mut s, m)| {
+                s.max_packet_size = m;
+                s.events.insert(0, Ev::CloneHandle);
+                // marks the schedule as fine-grained (see run)
+                s.events.insert(0, Ev::PollCtx);
+                s
+            });
+        prop_oneof![3 => quiescent, 1 => fine].boxed()
     }
 
     fn cases(tier: Tier) -> u32 {
-        tier.pick(20_000, 150_000)
+        tier.pick(24_000, 180_000)
     }
 
     /// many subscriptions on one client, so that subscription identifiers cross the
@@ -443,9 +470,13 @@ impl Property for C07 {
     }
 
     fn run(case: &Scenario) -> Outcome {
-        let cfg = SimCfg::default();
+        let fine = matches!(case.events.first(), Some(Ev::PollCtx));
+        let cfg = SimCfg { auto_settle: !fine, ..Default::default() };
         let out = run(case, &cfg);
         let mut o = Outcome::ok();
+        if fine {
+            o.class("fine-grained-schedule");
+        }
         let s = &out.stats;
         o.nontrivial = s.live_subs_max >= 2 && (s.msg_before_suback + s.msg_before_stream + s.msg_after_other_dropped) > 0;
         if s.msg_before_suback > 0 {
@@ -1133,7 +1164,25 @@ pub struct C13;
 pub enum C13Case {
     Run { prefix: Scenario, cause: Cause },
     /// first response to connect(): a CONNACK / AUTH, or the transport ending at `cut`
-    Connect { connack: rc::Connack, auth: Option<rc::Auth>, cut: Option<u16>, err: bool },
+    Connect {
+        connack: rc::Connack,
+        auth: Option<rc::Auth>,
+        cut: Option<u16>,
+        err: bool,
+        /// the Context has been used before: an earlier connection on it ended (end-of-stream or
+        /// read error) `tail` bytes into an inbound packet, inside connect() or inside run(); the
+        /// case proper then runs on fresh transport halves given to the same Context
+        #[serde(default)]
+        previous: Option<PrevConn>,
+    },
+}
+
+#[derive(Clone, Debug, Serialize, Deserialize)]
+pub struct PrevConn {
+    pub reached_run: bool,
+    /// how many bytes of a 40-byte PUBLISH / of the CONNACK had arrived when the transport ended
+    pub tail: u8,
+    pub err: bool,
 }
 
 fn cause() -> BoxedStrategy<Cause> {
@@ -1196,7 +1245,14 @@ impl Property for C13 {
                 if connack.reason == 0 {
                     connack.sub_ids_available = None;
                 }
-                C13Case::Connect { connack, auth, cut, err }
+                C13Case::Connect { connack, auth, cut, err, previous: None }
+            });
+        let conn_case = (conn_case, proptest::option::weighted(0.4, (any::<bool>(), 0u8..40, any::<bool>())))
+            .prop_map(|(mut c, p)| {
+                if let C13Case::Connect { previous, .. } = &mut c {
+                    *previous = p.map(|(reached_run, tail, err)| PrevConn { reached_run, tail, err });
+                }
+                c
             });
         prop_oneof![4 => run_case, 1 => conn_case].boxed()
     }
@@ -1277,19 +1333,55 @@ impl Property for C13 {
                 }
                 o.fail = failure_for(&out, &["C13/", "C05/wrong-completion/disconnect", "C05/not-completed/disconnect"]);
             }
-            C13Case::Connect { connack, auth, cut, err } => {
+            C13Case::Connect { connack, auth, cut, err, previous } => {
                 o.class("connect-phase");
-                o.fail = connect_phase(connack, auth.as_ref(), *cut, *err, &mut o);
+                if previous.is_some() {
+                    o.class("connect-on-a-context-used-before");
+                }
+                o.fail = connect_phase(connack, auth.as_ref(), *cut, *err, previous.as_ref(), &mut o);
             }
         }
         o
     }
 }
 
-fn connect_phase(connack: &rc::Connack, auth: Option<&rc::Auth>, cut: Option<u16>, err: bool, o: &mut Outcome) -> Option<Failure> {
+fn connect_phase(connack: &rc::Connack, auth: Option<&rc::Auth>, cut: Option<u16>, err: bool, previous: Option<&PrevConn>, o: &mut Outcome) -> Option<Failure> {
     use crate::world::World;
     let plan = WritePlan::default();
     let mut w = World::new();
+    if let Some(p) = previous {
+        // an earlier connection on the same Context, ended by the transport inside a packet; how
+        // that connection ends is judged by the other cases, nothing is asserted here
+        w.tick();
+        w.start_connect(ConnectSpec::default());
+        settle(&mut w, &plan, false);
+        let first = rc::encode(&rc::Packet::Connack(rc::Connack::default()), &rc::Form::canonical());
+        let partial: Vec<u8> = if p.reached_run {
+            w.reader.feed(first);
+            settle(&mut w, &plan, false);
+            w.tick();
+            w.start_run();
+            settle(&mut w, &plan, false);
+            let big = rc::encode(&rc::Packet::Publish(rc::Publish { qos: 0, topic: "previous/connection".into(), payload: vec![7; 18], ..Default::default() }), &rc::Form::canonical());
+            big[..(p.tail as usize).min(big.len() - 1)].to_vec()
+        } else {
+            first[..(p.tail as usize).min(first.len() - 1)].to_vec()
+        };
+        w.tick();
+        if !partial.is_empty() {
+            w.reader.feed(partial);
+            settle(&mut w, &plan, false);
+        }
+        if p.err { w.reader.set_err() } else { w.reader.set_eof() }
+        settle(&mut w, &plan, false);
+        if let Some(p) = first_panic(&w) {
+            return Some(Failure { sig: format!("PANIC/{}", panic_sig(&p)), msg: p });
+        }
+        if !w.set_up_again() {
+            return None; // the earlier call has not returned: C13's other cases / C04 judge that
+        }
+    }
+    let base = w.conn_results.len();
     w.tick();
     let spec = if auth.is_some() {
         ConnectSpec { auth_method: Some("m".into()), auth_data: Some(vec![1]), ..Default::default() }
@@ -1304,7 +1396,7 @@ fn connect_phase(connack: &rc::Connack, auth: Option<&rc::Auth>, cut: Option<u16
     };
     let bytes = rc::encode(&pkt, &rc::Form::canonical());
     let cut_at = cut.map(|c| (c as usize).min(bytes.len()));
-    if !w.conn_results.is_empty() {
+    if w.conn_results.len() > base {
         return Some(Failure { sig: "C13/connect/returned-before-response".into(), msg: format!("{:?}", w.conn_results) });
     }
     w.tick();
@@ -1314,7 +1406,7 @@ fn connect_phase(connack: &rc::Connack, auth: Option<&rc::Auth>, cut: Option<u16
             o.class("transport-ends-before-response-complete");
             w.reader.feed(bytes[..c].to_vec());
             settle(&mut w, &plan, false);
-            if !w.conn_results.is_empty() {
+            if w.conn_results.len() > base {
                 return Some(Failure { sig: "C13/connect/returned-on-partial-response".into(), msg: format!("{:?} after {c} of {} bytes", w.conn_results, bytes.len()) });
             }
             if err { w.reader.set_err() } else { w.reader.set_eof() }
@@ -1322,7 +1414,7 @@ fn connect_phase(connack: &rc::Connack, auth: Option<&rc::Auth>, cut: Option<u16
             if let Some(p) = first_panic(&w) {
                 return Some(Failure { sig: format!("PANIC/{}", panic_sig(&p)), msg: p });
             }
-            match w.conn_results.last() {
+            match w.conn_results.get(base..).and_then(|v| v.last()) {
                 Some(ConnRes::Err(ErrSum::SocketClosed)) => None,
                 other => Some(Failure {
                     sig: "C13/connect/transport-ended-first/not-socket-closed".into(),
@@ -1340,7 +1432,7 @@ fn connect_phase(connack: &rc::Connack, auth: Option<&rc::Auth>, cut: Option<u16
             if let Some(p) = first_panic(&w) {
                 return Some(Failure { sig: format!("PANIC/{}", panic_sig(&p)), msg: p });
             }
-            let got = w.conn_results.last().cloned();
+            let got = w.conn_results.get(base..).and_then(|v| v.last()).cloned();
             let want = match auth {
                 Some(a) => ConnRes::Auth(auth_expected(a)),
                 None => {
